@@ -223,6 +223,20 @@ CHECKS = [
      "the Lean model (still compared with utils.bootstrap_ci); two open findings (bca raises UFuncTypeError for integer-valued "
      "metrics; bc/bca raise ValueError when a component is NaN in every replicate) are listed in known_findings.json.",
      "Lean 4 proof about a hand-written model + differential correspondence check with harness-owned samplers", "DESIGN.md §5 C14"),
+ chk("C07",
+     "Lean theorems about a line-by-line model of Scores.auc (points one ulp either side of every score via a nextafter oracle, "
+     "sort, rates, reversal, searchsorted window, flat extension, trapezoid, abs), for sorted arrays with at least one scored "
+     "negative, all 4 configurations and easy counts: C07_code_eq_mw (full AUC = Mann-Whitney statistic with half credit for "
+     "ties; easy samples rank beyond everything), C07_code_equal_class (independent of equal_class), C07_partial_eq_step "
+     "(no cross-class ties: partial AUC over [lower, upper] = exact area under the step ROC), C07_code_additive, C07_code_le, "
+     "C07_code_ycompl, C07_code_xcompl(_mirror), C07_code_exchange; plus theorems about the reference functions "
+     "(C07_step_additive, C07_step_le, C07_step_full_eq_mw, C07_mw_range, C07_mw_swap). Tied to /repo by comparing the model "
+     "with Scores.auc on every case and evaluating the Lean predicates mwOK / stepOK / boundOK on the implementation's outputs, "
+     "plus additivity and the complement / exchange identities as relations between real runs.",
+     BASE_NOTE + "The nextafter oracle must be lawful and 'neighbourly' on the data (a < b in the data -> up a <= b and a <= down b); "
+     "np.trapezoid / np.searchsorted by documented meaning; float rounding of the trapezoid sum within 1e-9; limits equal to "
+     "the double nearest k/N are sent to the model as k/N.",
+     "Lean 4 proof about a hand-written model + differential correspondence check", "DESIGN.md §5 C07"),
 ]
 
 ALL = [f"C{i:02d}" for i in range(1, 21)]
